@@ -39,6 +39,12 @@ struct Options {
   int weak_fail_budget = 0;   // max injected spurious weak-CAS failures per execution
   int max_choices = 400;      // executions with more decisions are cut (reported as "cut")
   int spin_limit = 64;        // same fiber repeating the same op on the same object: force a switch
+  // Where a preemption is offered around a wrapped operation `op` (InjectFault runs before and after it):
+  //   0 = before `op` only (default): the plain code that follows an operation runs in one piece with it;
+  //   1 = after `op` only: the plain code that precedes an operation runs in one piece with it, and a fiber can
+  //       be stopped right after its operation, before the plain code that follows (e.g. a store after a publish);
+  //   2 = both.  The set of interleavings of the wrapped operations themselves is the same in all three.
+  int yield_at = 0;
 };
 
 struct Loc {
@@ -57,6 +63,7 @@ struct State {
   // per-execution
   bool active = false;
   bool at_before = false;
+  bool inject_second = false;  // the InjectFault() in front of the current operation has already been seen
   bool yielding = false;
   int preemptions = 0;
   int weak_fails = 0;
@@ -145,7 +152,17 @@ inline std::int64_t Choose(int kind, std::uint64_t n) {
       if (!g.at_before) {
         return 0;
       }
-      g.at_before = false;
+      {
+        const bool second = g.inject_second;
+        g.inject_second = true;
+        const bool decide_here = second ? g.opt.yield_at != 0 : g.opt.yield_at != 1;
+        if (second || g.opt.yield_at == 0) {
+          g.at_before = false;
+        }
+        if (!decide_here) {
+          return 0;
+        }
+      }
       if (!g.opt.yields || QueueEmpty()) {
         return 0;
       }
@@ -199,6 +216,7 @@ inline void Before(const volatile void* obj, const char* op) {
     return;
   }
   g.at_before = true;
+  g.inject_second = false;
   if (obj == g.last_obj && g.cur == g.last_fiber && g.last_op == op) {
     ++g.repeat;
   } else {
@@ -478,11 +496,11 @@ inline void Explore(const std::string& mode, const std::function<void()>& scenar
 inline void Emit(FILE* out, const std::string& scenario_name, const std::string& mode, const Summary& sum) {
   std::fprintf(out,
                "{\"scenario\":\"%s\",\"mode\":\"%s\",\"executions\":%llu,\"distinct\":%zu,\"cut\":%llu,"
-               "\"failures\":%llu,\"exhaustive\":%s,\"preemption_bound\":%d,\"weak_fail_budget\":%d}\n",
+               "\"failures\":%llu,\"exhaustive\":%s,\"preemption_bound\":%d,\"weak_fail_budget\":%d,\"yield_at\":%d}\n",
                JsonEscape(scenario_name).c_str(), mode.c_str(), static_cast<unsigned long long>(sum.executions),
                sum.traces.size(), static_cast<unsigned long long>(sum.cut),
                static_cast<unsigned long long>(sum.failures), sum.exhaustive ? "true" : "false",
-               g.opt.preemption_bound, g.opt.weak_fail_budget);
+               g.opt.preemption_bound, g.opt.weak_fail_budget, g.opt.yield_at);
   for (auto& [trace, d] : sum.traces) {
     std::string t = trace;
     auto pos = t.find(" #FAIL ");
